@@ -756,7 +756,12 @@ func (tm *TaskMaster) forkPoint(p edge.PointMessage) {
 		_ = edge.Collect(p)
 	}
 
-	for _, edge := range tm.forks[emptyMeasurementKey] {
+	for taskID, edge := range tm.forks[emptyMeasurementKey] {
+		if _, ok := tm.forks[key][taskID]; ok {
+			// The task also subscribed to this exact measurement
+			// and already received the point above.
+			continue
+		}
 		_ = edge.Collect(p)
 	}
 
